@@ -7,6 +7,20 @@ def main():
     os.makedirs(d, exist_ok=True)
     shutil.copy(patch, os.path.join(d, "patch.diff"))
     shutil.copy(demo, os.path.join(d, os.path.basename(demo) if os.path.basename(demo).startswith("demo") else "demo.py"))
+    mp = os.path.join(d, "meta.json")
+    if os.path.exists(mp) and os.environ.get("SEED_ROUND2"):
+        meta = json.load(open(mp))
+        key, ckey = "checks_run_after_strengthening", "caught_by_after_strengthening"
+        meta[key] = {}
+        for a in audits:
+            j = json.load(open(a))
+            for p, v in j["checks"].items():
+                meta[key][p + "/" + j["tier"]] = {"exit": v["exit"], "violation_keys": v["violation_keys"][:6]}
+        meta[ckey] = sorted(set(k.split("/")[0] for k, v in meta[key].items() if v["exit"] == 1))
+        meta["strengthened_at_verif_commit"] = os.popen("git -C %s rev-parse --short HEAD" % HERE).read().strip()
+        json.dump(meta, open(mp, "w"), indent=1)
+        print(sid, "after strengthening caught by", meta[ckey])
+        return
     meta = {"id": sid, "breaks_property": prop, "needs_to_manifest": needs, "author": "independent sub-agent given only the property text and a scratch worktree",
             "confirmed": {}, "checks_run": {}}
     for a in audits:
